@@ -887,6 +887,14 @@ namespace Dune
       );
     };
 
+    struct BaseIterLessOp
+    {
+      template<class It1, class It2>
+      auto require(const It1& it1, const It2& it2) -> decltype(
+        Dune::Concept::requireConvertible<bool>(IteratorFacadeAccess::baseIterator(it1) < IteratorFacadeAccess::baseIterator(it2))
+      );
+    };
+
   } // namespace Impl::Concept
 
 
@@ -1355,7 +1363,11 @@ namespace Dune
   {
     const T1& derivedIt1 = IteratorFacadeAccess::derived(it1);
     const T2& derivedIt2 = IteratorFacadeAccess::derived(it2);
-    return (derivedIt1 - derivedIt2) < D1(0);
+    // order the base iterators directly where there are any: their distance need not be representable
+    if constexpr (Dune::models<Impl::Concepts::BaseIterLessOp, T1, T2>())
+      return IteratorFacadeAccess::baseIterator(derivedIt1) < IteratorFacadeAccess::baseIterator(derivedIt2);
+    else
+      return (derivedIt1 - derivedIt2) < D1(0);
   }
 
   /**
@@ -1371,7 +1383,11 @@ namespace Dune
   {
     const T1& derivedIt1 = IteratorFacadeAccess::derived(it1);
     const T2& derivedIt2 = IteratorFacadeAccess::derived(it2);
-    return (derivedIt1 - derivedIt2) <= D1(0);
+    // order the base iterators directly where there are any: their distance need not be representable
+    if constexpr (Dune::models<Impl::Concepts::BaseIterLessOp, T1, T2>())
+      return not(IteratorFacadeAccess::baseIterator(derivedIt2) < IteratorFacadeAccess::baseIterator(derivedIt1));
+    else
+      return (derivedIt1 - derivedIt2) <= D1(0);
   }
 
   /**
@@ -1387,7 +1403,11 @@ namespace Dune
   {
     const T1& derivedIt1 = IteratorFacadeAccess::derived(it1);
     const T2& derivedIt2 = IteratorFacadeAccess::derived(it2);
-    return (derivedIt1 - derivedIt2) > D1(0);
+    // order the base iterators directly where there are any: their distance need not be representable
+    if constexpr (Dune::models<Impl::Concepts::BaseIterLessOp, T1, T2>())
+      return IteratorFacadeAccess::baseIterator(derivedIt2) < IteratorFacadeAccess::baseIterator(derivedIt1);
+    else
+      return (derivedIt1 - derivedIt2) > D1(0);
   }
 
   /**
@@ -1403,7 +1423,11 @@ namespace Dune
   {
     const T1& derivedIt1 = IteratorFacadeAccess::derived(it1);
     const T2& derivedIt2 = IteratorFacadeAccess::derived(it2);
-    return (derivedIt1 - derivedIt2) >= D1(0);
+    // order the base iterators directly where there are any: their distance need not be representable
+    if constexpr (Dune::models<Impl::Concepts::BaseIterLessOp, T1, T2>())
+      return not(IteratorFacadeAccess::baseIterator(derivedIt1) < IteratorFacadeAccess::baseIterator(derivedIt2));
+    else
+      return (derivedIt1 - derivedIt2) >= D1(0);
   }
 
 
